@@ -631,6 +631,11 @@ func (w *Reconciler) handleKillJob(
 	rj *execution.Job,
 	tasks []jobtasks.Task,
 ) (*execution.Job, error) {
+	// The kill timestamp is in the future, sync again once it is due.
+	if ts := rj.Spec.KillTimestamp; ktime.IsTimeSetAndLater(ts) {
+		w.enqueueAfter(rj, "kill_timestamp", time.Until(ts.Time))
+	}
+
 	if !shouldKillJob(rj) {
 		return rj, nil
 	}
